@@ -728,14 +728,16 @@ func runExtractUnit(u unit) error {
 			partial = true
 			return false
 		}
+		if seq < u.Resume {
+			// already run before the worker was restarted; not re-hashed (a restart must stay cheap for
+			// megabyte seeds), so a later duplicate of one of these may be executed once more
+			return true
+		}
 		h := fnv64(pathB, data)
 		if _, dup := seen[h]; dup {
 			return true
 		}
 		seen[h] = struct{}{}
-		if seq < u.Resume {
-			return true
-		}
 		if err := sc.place(data); err != nil {
 			herr = harnessErr{err.Error()}
 			return false
@@ -796,7 +798,7 @@ func runExtractUnit(u unit) error {
 		one(0, mutDesc{Op: "replay"}, data)
 		total = 1
 	} else {
-		total = enumerate(seed, u.Tier, one)
+		total = enumerate(seed, u.Tier, u.Resume, one)
 	}
 	sendHashes(hashes)
 	if herr != nil {
